@@ -58,6 +58,12 @@ func VH_C20_readwallet_flow() {
 	w, err := wallet.New()
 	verifrt.Assert(err == nil, "C20/file/wallet-created")
 	h := New(Config{WalletPath: path, WalletPasswd: pw}, aeswrapper.New())
+	switch verifrt.Choose("earlier-file", 3) { // what the path holds before the save
+	case 1:
+		verifrt.Assert(os.WriteFile(path, verifrt.NondetBytes("earlier-short", 0, 8), 0644) == nil, "C20/file/setup")
+	case 2: // longer than any wallet file
+		verifrt.Assert(os.WriteFile(path, verifrt.NondetBytes("earlier-long", 400, 400), 0644) == nil, "C20/file/setup")
+	}
 	verifrt.Assert(h.SaveWallet(&w) == nil, "C20/file/saved")
 	content, err := os.ReadFile(path)
 	verifrt.Assert(err == nil, "C20/file/written")
